@@ -2,6 +2,13 @@ package floodsub
 
 import (
 	"context"
+	"crypto/ed25519"
+	"encoding/binary"
+	"io"
+
+	"github.com/aperturerobotics/bifrost/crypto"
+	"github.com/aperturerobotics/bifrost/stream"
+	stream_packet "github.com/aperturerobotics/bifrost/stream/packet"
 
 	"github.com/aperturerobotics/bifrost/hash"
 	"github.com/aperturerobotics/bifrost/peer"
@@ -75,4 +82,114 @@ func VerifC28Relay() {
 	cancel()
 	rt.Quiesce()
 	rt.Reach("end")
+}
+
+type c28Wire struct {
+	stream.Stream
+	wr     []byte
+	closed bool
+	hold   chan struct{}
+}
+
+func (w *c28Wire) Write(p []byte) (int, error) {
+	w.wr = append(w.wr, p...)
+	return len(p), nil
+}
+func (w *c28Wire) Read(p []byte) (int, error) {
+	<-w.hold
+	return 0, io.EOF
+}
+func (w *c28Wire) Close() error { w.closed = true; return nil }
+
+// c28Announced decodes the packets written to a session's stream and returns the channels the node
+// currently claims to subscribe to (Subscribe=true minus Subscribe=false, in order).
+func c28Announced(w *c28Wire) map[string]bool {
+	out := map[string]bool{}
+	b := w.wr
+	for len(b) >= 4 {
+		n := int(binary.LittleEndian.Uint32(b))
+		if len(b) < 4+n {
+			break
+		}
+		pk := &Packet{}
+		if err := pk.UnmarshalVT(b[4 : 4+n]); err == nil {
+			for _, so := range pk.GetSubscriptions() {
+				if so.GetSubscribe() {
+					out[so.GetChannelId()] = true
+				} else {
+					delete(out, so.GetChannelId())
+				}
+			}
+		}
+		b = b[4+n:]
+	}
+	return out
+}
+
+// VerifC28NewSession: a peer session established at any point — before or after the node subscribed —
+// is told the node's current subscriptions, so that messages for them are flooded to the node.
+func VerifC28NewSession() {
+	rt.SchedBound(0, false)
+	m := c27Node(nil)
+	ctx, cancel := context.WithCancel(context.Background())
+	rt.Go("router", func() { _ = m.Execute(ctx) })
+	rt.Quiesce()
+	var wires []*c28Wire
+	addSession := func(link uint64) {
+		w := &c28Wire{hold: make(chan struct{})}
+		wires = append(wires, w)
+		s := &streamHandler{m: m, le: m.le, packetCh: make(chan *Packet, 32), peerID: "\x00\x01P",
+			tpl: pubsub.PeerLinkTuple{PeerID: "\x00\x01P", LinkID: link}, stream: stream_packet.NewSession(w, maxMessageSize)}
+		m.mtx.Lock()
+		m.peers[s.tpl] = s
+		m.incSessions = append(m.incSessions, s)
+		m.mtx.Unlock()
+		m.wake()
+		rt.Quiesce()
+		rt.FireTickers()
+		rt.Quiesce()
+	}
+	subscribed := false
+	subscribe := func() {
+		_, err := m.AddSubscription(ctx, c28PrivKey(), "x")
+		rt.Assert("subscribe", err == nil)
+		subscribed = true
+		rt.Quiesce()
+		rt.FireTickers()
+		rt.Quiesce()
+	}
+	link := uint64(1)
+	n := rt.IntRange("steps", 2, 3)
+	for i := 0; i < n; i++ {
+		if !subscribed && rt.Choose("step", 2) == 1 {
+			subscribe()
+		} else {
+			addSession(link)
+			link++
+		}
+	}
+	if !subscribed {
+		subscribe()
+	}
+	rt.Assert("at least one session", len(wires) > 0)
+	for _, w := range wires {
+		rt.Assert("every session, whenever it was established, has been told the node's subscription", c28Announced(w)["x"])
+	}
+	cancel()
+	for _, w := range wires {
+		close(w.hold)
+	}
+	rt.Quiesce()
+	rt.Reach("end")
+}
+
+func c28PrivKey() crypto.PrivKey {
+	seed := make([]byte, 32)
+	seed[0] = 3
+	std := ed25519.NewKeyFromSeed(seed)
+	k, _, err := crypto.KeyPairFromStdKey(&std)
+	if err != nil {
+		panic(err)
+	}
+	return k
 }
